@@ -15,6 +15,9 @@ import (
 // their specification sum += idx * tbl[0] (valid when tbl[j] = (j+1)*tbl[0], which is checked at every call).
 func ladderSet(semanticTables bool) *models.Set {
 	s := models.NewSet().Merge(models.Field()).Merge(models.Helpers()).Merge(models.Scalar()).Merge(models.PointInternal(nil))
+	// an unexported accessor of the scalar that has no specification of its own is analysed as written: the conversion out
+	// of the Montgomery domain of an abstract scalar yields the limbs of its canonical representative
+	s.Merge(models.FiatOnAbstract(models.FiatSPkg, sym.Fn))
 	if semanticTables {
 		models.SemanticTables(s)
 	}
